@@ -236,6 +236,8 @@ func (g *gen) op(depth int, allowPub bool) Op {
 			return Op{K: Has, T: t}
 		case x < 98:
 			return Op{K: Count, T: t}
+		case x == 98 && depth == 0 && r.IntN(2) == 0:
+			return Op{K: Shutdown, PreCancelled: r.IntN(2) == 0}
 		default:
 			if depth == 0 {
 				return Op{K: Wait}
